@@ -13,6 +13,7 @@ import Rmk.Impl.Virtual
 import Rmk.Impl.Heap
 import Rmk.Impl.ByteLength
 import Rmk.Impl.Iters
+import Rmk.Impl.Elem
 import Driver.Sexp
 namespace Driver
 open Rmk
@@ -462,48 +463,8 @@ def runStore (t : Ty) (v : Val) (ops : List (List Impl.SOp ⊕ (Nat ⊕ (Nat × 
         go (k + 1) s' snaps' rest (out.reverse ++ acc)
     join (go 0 [{ ty := t, backing := n0, hook := none }] [] ops [])
 
-/-- element `i` of a view, read through the view API (composition of model functions) -/
-def readElem (t : Ty) (n : Node) (i : Nat) : Option Val :=
-  match t with
-  | .vector et len =>
-    if i ≥ len then none else
-    if et.isBasic then
-      let per := 32 / et.basicSize
-      (Impl.getAt n (i / per) (Impl.treeDepth t)).bind fun c => Impl.readBasicAt H et c (i % per)
-    else (Impl.getAt n i (Impl.treeDepth t)).bind (Impl.readVal H et)
-  | .list et _ =>
-    match Impl.listLength H n with
-    | none => none
-    | some len =>
-      if i ≥ len then none else
-      if et.isBasic then
-        let per := 32 / et.basicSize
-        (Impl.getAt n (i / per) (Impl.treeDepth t)).bind fun c => Impl.readBasicAt H et c (i % per)
-      else (Impl.getAt n i (Impl.treeDepth t)).bind (Impl.readVal H et)
-  | .container fs =>
-    match fs[i]? with
-    | none => none
-    | some ft => (Impl.getAt n i (Impl.treeDepth t)).bind (Impl.readVal H ft)
-  | .bitvector len =>
-    if i ≥ len then none else
-    (Impl.getAt n (i / 256) (Impl.treeDepth t)).map fun c => .num (if Impl.bitOfChunk (c.root H) i then 1 else 0)
-  | .bitlist _ =>
-    match Impl.listLength H n with
-    | none => none
-    | some len =>
-      if i ≥ len then none else
-      (Impl.getAt n (i / 256) (Impl.treeDepth t)).map fun c => .num (if Impl.bitOfChunk (c.root H) i then 1 else 0)
-  | _ => none
-
-def viewLen (t : Ty) (n : Node) : Option Nat :=
-  match t with
-  | .vector _ len => some len
-  | .bitvector len => some len
-  | .bytevector len => some len
-  | .list _ _ => Impl.listLength H n
-  | .bitlist _ => Impl.listLength H n
-  | .bytelist _ => (Impl.readVal H t n).map fun v => match v with | .bytes bs => bs.length | _ => 0
-  | _ => none
+def readElem (t : Ty) (n : Node) (i : Nat) : Option Val := Impl.readElem H t n i
+def viewLen (t : Ty) (n : Node) : Option Nat := Impl.viewLen H t n
 
 inductive POp where
   | read | elem (i : Nat) | len | bytes | root | mut (op : HOp) | slice (a b : Nat) | nav (g : Nat)
@@ -550,8 +511,8 @@ def runPOps (t : Ty) (n0 : Node) (ops : List POp) (key : String) : List String :
           (n, okStr ((viewLen t n).bind fun ln =>
             let a' := a % (ln + 1)
             let b' := a' + b % (ln - a' + 1)
-            ((List.range (b' - a')).mapM fun j => (readElem t n (a' + j)).map valStr).map fun xs =>
-              toString a' ++ ":" ++ toString b' ++ ":" ++ String.intercalate "," xs))
+            (Impl.sliceRead H t n a' b').map fun xs =>
+              toString a' ++ ":" ++ toString b' ++ ":" ++ String.intercalate "," (xs.map valStr)))
         | .bytes => (n, okStr ((Impl.serTree H t n).map fun p => hexOf p.1))
         | .root => (n, "ok:" ++ hexOf (n.root H))
         | .mut ho =>
